@@ -395,3 +395,4 @@ def _r19_5(res, programs):
 LEVEL = LEVEL + ' Also the bound-polarity and half-test pairing rules are re-evaluated in the no_std and 32-bit configurations.'
 TECHNIQUE = 're-evaluation of every structural rule on the MIR of five build configurations (debug, release, 32-bit words, no_std, all features); CFG-based debug-region effect analysis; serializer / deserializer who-may-construct rules; cfg-sibling agreement of public item and impl sets'
 LEVEL = LEVEL + ' (R06.4, R10.5, R05.4a/R05.6 of the all-features build are re-evaluated here too.)'
+LEVEL = LEVEL + ' (R19.6) usize::BITS is used only inside impls for usize, and every named *WORD_BITS* constant equals dashu_int::primitive::WORD_BITS, so no kernel takes the host pointer width for the word width.'
